@@ -93,10 +93,10 @@ def write_replay(pid, case, fail):
         "key": fail["key"],
         "what": fail["what"],
         "detail": fail.get("detail"),
-        "case": case,
+        "case": fail.get("replay_case", case),
         "replay": f"cd {VERIF} && ./check {pid} --replay <this file>",
     }
-    path = os.path.join(d, jhash([fail["key"], case]) + ".json")
+    path = os.path.join(d, jhash([fail["key"], fail.get("replay_case", case)]) + ".json")
     with open(path, "w") as f:
         json.dump(rec, f, indent=1, default=str)
     return path
@@ -223,7 +223,7 @@ def finish(mod, tier, seed, agg, t0, replaying=False):
         if k in cov:
             summ[k] = cov[k]
     print(
-        f"[{pid}] tier={tier} seed={seed} {summ} outcomes={agg['outcomes']} "
+        f"[{pid}] tier={tier} seed={seed} {summ} outcomes={agg['outcomes'] if len(agg['outcomes']) <= 8 else str(len(agg['outcomes'])) + ' kinds'} "
         f"violations={len(new)} known={len(seen_known)} wall={ev['wall_s']}s rc={rc}"
     )
     return rc
